@@ -105,6 +105,22 @@ pub fn run_case(case: &Case, prefix: Vec<u32>) -> Run {
         Peer::client("probe-a4", vec![Step::Connect { to: a4, from: None }, Step::Close, Step::Done]),
         Peer::client("probe-a6", vec![Step::Connect { to: a6, from: None }, Step::Close, Step::Done]),
     ];
+    // behavioural probe: one HTTP request on a4; two backends answer whatever reaches them
+    let b1: std::net::SocketAddr = cfgspace::b1().into();
+    let b2: std::net::SocketAddr = cfgspace::b2().into();
+    let mut probes = probes;
+    probes.push(Peer::client(
+        "probe-http",
+        vec![
+            Step::Connect { to: a4, from: None },
+            Step::Send { bytes: b"GET / HTTP/1.1\r\nHost: a.io\r\nConnection: close\r\n\r\n".to_vec(), splits: vec![] },
+            Step::ExpectH1 { count: 1, responses: true },
+            Step::Close,
+            Step::Done,
+        ],
+    ));
+    probes.push(Peer::server("backend-b1", b1, vec![Step::ServeH1 { response_head: "HTTP/1.1 200 OK".into(), body: b"b1".to_vec() }]));
+    probes.push(Peer::server("backend-b2", b2, vec![Step::ServeH1 { response_head: "HTTP/1.1 200 OK".into(), body: b"b2".to_vec() }]));
     // probes run from the start of the scenario... they must run after the
     // sequence: give them a leading wait that the main script outlasts
     let probes: Vec<Peer> = probes
@@ -115,7 +131,8 @@ pub fn run_case(case: &Case, prefix: Vec<u32>) -> Run {
         })
         .collect();
     script.push(MainStep::Wait { ms: 100 });
-    script.push(MainStep::AwaitPeers);
+    // (a probe nobody answers, e.g. on a handed-over socket, must not hold the epilogue up)
+    script.push(MainStep::AwaitPeersFor { ms: 45_000 });
     script.push(MainStep::Send(worker::request("EPI-SOFTSTOP", RequestType::SoftStop(SoftStop {}))));
     script.push(MainStep::AwaitFinal("EPI-SOFTSTOP".into()));
     script.push(MainStep::Wait { ms: 3000 });
@@ -224,6 +241,47 @@ pub fn run_case(case: &Case, prefix: Vec<u32>) -> Run {
                 format!("listening-mismatch:{}", if accepts { "accepts-while-inactive" } else { "refuses-while-active" }),
                 format!("address {name}: the worker {} connections but its configuration says active={want}", if accepts { "accepts" } else { "refuses" }),
             );
+        }
+    }
+    // ---- (3b) the request path behaves as the view says (HTTP listener on a4)
+    // (a listener expecting a PROXY header would need one from the probe: skipped)
+    // (two listeners of different protocols on one address share its connections by the
+    // kernel's SO_REUSEPORT hashing: which one serves the probe is not defined, skipped)
+    let shared_address = worker_ref.tcp_listeners.contains_key(&a4) || worker_ref.https_listeners.contains_key(&a4);
+    if !handed_over && !shared_address && worker_ref.http_listeners.get(&a4).is_some_and(|l| l.active && !l.expect_proxy) {
+        let probe = &sc.peers[2];
+        let (resps, _, _) = crate::sim::h1::parse_all(&probe.conn.rx, true, true);
+        let got = resps.first().and_then(|r| r.status());
+        // the only frontends of the alphabet matching "GET a.io/" are the PREFIX "/" ones on a.io
+        let front = worker_ref
+            .http_fronts
+            .values()
+            .find(|f| std::net::SocketAddr::from(f.address) == a4 && f.hostname == "a.io" && f.path.value == "/" && f.path.kind == sozu_command_lib::proto::command::PathRuleKind::Prefix as i32);
+        let expect: (&str, Vec<u16>) = match front {
+            None => ("no frontend matches", vec![404]),
+            Some(f) => match f.cluster_id.as_ref() {
+                None => ("the frontend denies", vec![401]),
+                Some(cid) => match worker_ref.clusters.get(cid) {
+                    // frontends and backends outlive their cluster's settings: traffic still flows
+                    None if worker_ref.backends.get(cid).is_some_and(|b| !b.is_empty()) => ("the cluster forwards (settings removed)", vec![200, 502, 503, 504]),
+                    None => ("the frontend's cluster is unknown and has no backend", vec![503]),
+                    Some(c) if c.https_redirect => ("the cluster redirects to https", vec![301]),
+                    Some(_) if worker_ref.backends.get(cid).is_none_or(|b| b.is_empty()) => ("the cluster has no backend", vec![503]),
+                    Some(_) => ("the cluster forwards", vec![200, 502, 503, 504]),
+                },
+            },
+        };
+        match got {
+            None => flag("request-path:no-answer".into(), format!("GET a.io/ on the active HTTP listener got no answer ({} bytes); view: {}", probe.conn.rx.len(), expect.0)),
+            Some(st) if !expect.1.contains(&st) => flag(format!("request-path:answers-{st}-view-says-{}", expect.1[0]), format!("GET a.io/ was answered {st} but by the worker's own view {} (expected one of {:?})", expect.0, expect.1)),
+            Some(200) => {
+                let sticky = front.and_then(|f| f.cluster_id.as_ref()).and_then(|c| worker_ref.clusters.get(c)).is_some_and(|c| c.sticky_session);
+                let has_cookie = resps[0].headers_named("set-cookie").iter().any(|v| v.starts_with("SOZUBALANCEID="));
+                if sticky != has_cookie {
+                    flag(format!("request-path:sticky-cookie-{}", if has_cookie { "set-while-view-says-not-sticky" } else { "missing-while-view-says-sticky" }), format!("response Set-Cookie present={has_cookie}, cluster sticky_session={sticky}"));
+                }
+            }
+            Some(_) => {}
         }
     }
     // ---- (4) the stop is acknowledged and the worker exits
